@@ -7,7 +7,9 @@
    the move to the next frame through offsetToFrameIndex (and the "frame shorter than its table entry" error),
    the cap of the decoder's output room at the frame end the table gives (fix 943db3b: a frame cannot hand out more
    than its entry announces; a surplus ends in the no-progress or the checksum error),
-   the no-output-progress counter, the length clamp at the end of the stream (with its U64 wrap).
+   the no-output-progress counter, the early return for an offset at / beyond the end and the length clamp (fix bb8f456),
+   the continuation of the loop when the read stops exactly at the end of a frame (fix 7f35186), the state after a
+   decoder error (fix b978b70).
 
    What is abstract: libzstd's streaming decoder and the input side (zs->in, src.read of the size hints).
    A frame is a function [content i] = the bytes the decoder regenerates from the frame entry i points at;
@@ -85,8 +87,27 @@ Section Reader.
     Variable offset len : N.                  (* len after clamping *)
     Let endpos := w64 (offset + len).
 
+    (* the condition of the inner while (fix 7f35186):
+         decompressedOffset < offset + len
+         || (len > 0 && !frameDone && decompressedOffset == entries[targetFrame + 1].dOffset)
+       frameDone is a local that is 1 only between "toRead == 0" and the break that follows it, and 0 again when the read
+       moves to the next frame: at every evaluation of this condition it is 0 - except after a break with
+       decompressedOffset > offset + len, which the model reports as RSpin directly.  So the second disjunct is
+       "the read stops exactly where the table ends the current frame": the decoder is driven (with no output room) until it
+       reports the end of the frame, and the checksum is compared. *)
+    Definition loop_cond (st : rstate) (target : N) : res bool :=
+      if r_doff st <? endpos then Ok true
+      else if 0 <? len then
+             if negb (in_range t (w32 (target + 1))) then Trap 56
+             else Ok (r_doff st =? e_d (ent t (w32 (target + 1))))
+           else Ok false.
+
     Fixpoint rloop (orc : list (N * bool)) (st : rstate) (target np : N) (dst : list N) : rres :=
-      if r_doff st <? endpos then
+      match loop_cond st target with
+      | Trap s => RTrap s
+      | Err _ => RTrap 57
+      | Ok false => if r_doff st =? endpos then ROk len dst st else RSpin st
+      | Ok true =>
         match orc with
         | [] => RFuel dst st
         | o :: orc' =>
@@ -128,14 +149,22 @@ Section Reader.
               else if r_doff st2 =? endpos then ROk len dst' st2 else RSpin st2
             else rloop orc' st2 target np' dst'
         end
-      else if r_doff st =? endpos then ROk len dst st else RSpin st.
+      end.
   End Call.
+
+  (* the decoder reported an error (fix b978b70): curFrame = (U32)-1 before the error is returned, so the next call seeks
+     and resets the decoder instead of continuing a stream in an error state.  (Decoder errors are outside the oracle - a
+     frame here is its content; this is the state transformation of that return path.) *)
+  Definition decoder_failed (st : rstate) : rstate :=
+    mkR 4294967295 (r_doff st) (d_frame st) (d_prod st) (d_fin st) (r_acc st) (r_trace st).
 
   (* ZSTD_seekable_decompress(zs, dst, len0, offset) with dst's previous content [dst0] *)
   Definition seekable_decompress (st : rstate) (dst0 : list N) (len0 offset : N) (orc : list (N * bool)) : rres :=
     if negb (in_range t (t_len t)) then RTrap 50 else
     let eos := e_d (ent t (t_len t)) in
-    let len := if eos <? w64 (offset + len0) then sub64 eos offset else len0 in
+    (* fix bb8f456: nothing at or beyond the end - return 0 without touching the cache; the clamp cannot wrap any more *)
+    if eos <=? offset then ROk 0 dst0 st else
+    let len := if sub64 eos offset <? len0 then sub64 eos offset else len0 in
     match offset_to_frame t offset with
     | Ok target =>
         match prelude offset st (w32 target) with
